@@ -3,7 +3,7 @@
 use crate::checks::Tier;
 use crate::es::*;
 use crate::explore::Violation;
-use crate::runner::{classify, load_findings, VERIF_DIR};
+use crate::runner::{classify, load_findings, out_dir};
 
 use serde_json::{json, Value};
 use std::time::{Duration, Instant};
@@ -80,7 +80,7 @@ pub fn finish(
                 if !known_lines.contains(&line) { known_lines.push(line); }
                 continue;
             }
-            let dir = format!("{VERIF_DIR}/replays");
+            let dir = format!("{}/replays", out_dir());
             let _ = std::fs::create_dir_all(&dir);
             let fsig: String = sig.chars().map(|c| if c.is_ascii_alphanumeric() { c } else { '_' }).take(60).collect();
             let path = format!("{dir}/{property}-{fsig}.json");
@@ -131,8 +131,8 @@ pub fn finish(
         "wall_s": t0.elapsed().as_secs_f64(),
         "violations": unknown,
     });
-    let _ = std::fs::create_dir_all(format!("{VERIF_DIR}/evidence"));
-    let path = format!("{VERIF_DIR}/evidence/{property}.json");
+    let _ = std::fs::create_dir_all(format!("{}/evidence", out_dir()));
+    let path = format!("{}/evidence/{property}.json", out_dir());
     if let Err(e) = std::fs::write(&path, serde_json::to_string_pretty(&evidence).unwrap())
     {
         eprintln!("machinery error: cannot write {path}: {e}");
